@@ -4,7 +4,7 @@ check reports on the CLEAN tree belong to an already described genuine-defect cl
 their signatures to that finding in known_findings.json.
 usage: tools/absorb_known.py <Cxx> <tier> <prefix>=<finding id> [...]"""
 import glob, json, os, shutil, subprocess, sys
-cid, tier, maps = sys.argv[1], sys.argv[2], dict(a.split('=', 1) for a in sys.argv[3:])
+cid, tier, maps = sys.argv[1], sys.argv[2], dict(a.rsplit('=', 1) for a in sys.argv[3:])
 if subprocess.run(['git', '-C', '/repo', 'diff', '--quiet']).returncode != 0:
     sys.exit('refusing: /repo has uncommitted changes (a seeded change may be applied)')
 shutil.rmtree(f'/verif/replays/{cid}', ignore_errors=True)
